@@ -127,6 +127,14 @@ def gen(ctx, sizes, reps):
                 ctx.add('sig.batch', lst(m), lst(s[:-1]), lst(k), expect=['err', 'err'], cls='len-mismatch')
                 ctx.add('sig.batch', lst(m), lst(s), lst(k[:-1]), expect=['err', 'err'], cls='len-mismatch')
                 ctx.add('sig.batch', lst(m + m[:1]), lst(s), lst(k), expect=['err', 'err'], cls='len-mismatch')
+                ctx.add('sig.batch', lst(m), lst(s + s[:1]), lst(k), expect=['err', 'err'], cls='len-mismatch')
+                ctx.add('sig.batch', lst(m), lst(s), lst(k + k[:1]), expect=['err', 'err'], cls='len-mismatch')
+                ctx.add('sig.batch', lst(m[:-1]), lst(s[:-1]), lst(k), expect=['err', 'err'], cls='len-mismatch')
+                ctx.add('sig.batch', lst(m[:-1]), lst(s), lst(k[:-1]), expect=['err', 'err'], cls='len-mismatch')
+                ctx.add('sig.batch', lst(m), lst(s[:-1]), lst(k[:-1]), expect=['err', 'err'], cls='len-mismatch')
+                ctx.add('sig.batch', '[]', '[]', lst(k), expect=['err', 'err'], cls='len-mismatch')
+                ctx.add('sig.batch', '[]', lst(s), '[]', expect=['err', 'err'], cls='len-mismatch')
+                ctx.add('sig.batch', lst(m), '[]', '[]', expect=['err', 'err'], cls='len-mismatch')
 
 
 def make(seed, size, sizes=(0, 1, 2, 3, 7), reps=1):
